@@ -558,6 +558,7 @@ def bigwindow(ctx, case):
             if kv[0] == "ID":
                 kv[1] = ["second%d" % i]
     text = F.text_of([{"t": "feat", "rec": r} for r in recs], D) + F.text_of([{"t": "feat", "rec": r} for r in recs2], D2)
+    written_keys = set(k for r in recs + recs2 for k, _ in r["attrs"])
     src = ctx.tmp(".big.gff")
     with open(src, "w", encoding="utf-8", newline="") as fh:
         fh.write(text)
@@ -579,10 +580,11 @@ def bigwindow(ctx, case):
             got = [str(f) for f in it]
             ctx.mon("large look-ahead windows: one-shot forms compared with the path form")
             d1 = dict(it.dialect); d0 = dict(ref.dialect)
-            # (the empty key is left out of the key order: lines of the losing spelling, parsed under the voted dialect, carry an
-            # empty key that per-line inference over the file does not see - a property of mixtures, not of the forms)
-            d1["order"] = [k_ for k_ in d1.get("order", []) if k_ != ""]
-            d0["order"] = [k_ for k_ in d0.get("order", []) if k_ != ""]
+            # (only the keys the annotation was written with are compared in the key order: lines of the losing spelling,
+            # parsed under the voted dialect, carry artefact keys - '', 'Parent;' - that per-line inference over the file does
+            # not see; that is a property of mixtures, not of the input forms)
+            d1["order"] = [k_ for k_ in d1.get("order", []) if k_ in written_keys]
+            d0["order"] = [k_ for k_ in d0.get("order", []) if k_ in written_keys]
             if d1 != d0 or got != ref_lines:
                 k = next((j for j in range(min(len(got), len(ref_lines))) if got[j] != ref_lines[j]), None)
                 ctx.violation(case, {"why": "with checklines=%d the %s form does not agree with the path form" % (ck, how),
